@@ -137,6 +137,85 @@ pub fn check_tuple(case: &TupleCase, st: &mut Stats) -> Result<(), String> {
     Ok(())
 }
 
+/// Specificity counts are compared component by component however large they get: a selector
+/// repeating one class (or id) k times against a short selector, in both source orders.
+#[derive(Clone, Debug, Serialize, Deserialize, PartialEq, Eq, Hash)]
+pub struct BigSpecCase {
+    /// number of repetitions
+    pub k: usize,
+    /// repeat `#i` instead of `.c`
+    pub ids: bool,
+    /// the competing selector: index into SELS
+    pub other: u8,
+    /// the repeated selector's rule comes first
+    pub first: bool,
+    pub user: bool,
+}
+
+fn bigspec_items(_ctx: &Ctx) -> Vec<BigSpecCase> {
+    let mut v = vec![];
+    for k in [2usize, 15, 16, 17, 255, 256, 257, 300, 1000] {
+        for ids in [false, true] {
+            for other in 0..4u8 {
+                for first in [false, true] {
+                    for user in [false, true] {
+                        v.push(BigSpecCase { k, ids, other, first, user });
+                    }
+                }
+            }
+        }
+    }
+    v
+}
+
+pub fn check_bigspec(case: &BigSpecCase, st: &mut Stats) -> Result<(), String> {
+    let rep = if case.ids { "#i".repeat(case.k) } else { ".c".repeat(case.k) };
+    let spec_rep = if case.ids { (case.k as u32, 0, 0) } else { (0, case.k as u32, 0) };
+    let spec_other = SPECS[case.other as usize];
+    let (c1, c2) = (0x010203u32, 0x040506u32);
+    let r1 = format!("{} {{ color: {} }}", rep, colour_hex(c1));
+    let r2 = format!("{} {{ color: {} }}", SELS[case.other as usize], colour_hex(c2));
+    let sheet = if case.first { format!("{}\n{}\n", r1, r2) } else { format!("{}\n{}\n", r2, r1) };
+    // higher specificity wins; on a tie the later rule
+    let expected = match spec_rep.cmp(&spec_other) {
+        std::cmp::Ordering::Greater => c1,
+        std::cmp::Ordering::Less => c2,
+        std::cmp::Ordering::Equal => if case.first { c2 } else { c1 },
+    };
+    let mut cfg = CfgSpec::rich();
+    let html = if case.user {
+        cfg.user_css = vec![sheet.clone()];
+        "<p class=\"c\" id=\"i\">x</p>".to_string()
+    } else {
+        cfg.doc_css = true;
+        format!("<html><head><style>{}</style></head><body><p class=\"c\" id=\"i\">x</p></body></html>", sheet)
+    };
+    let r = render_lines(&cfg, html.as_bytes(), 20);
+    let Rend::Ok(lines) = r else { return Err(format!("not rendered: {:?} {}", r.kind(), r.bad().unwrap_or_default())) };
+    let mut got: Vec<u32> = vec![];
+    for l in &lines {
+        for e in l {
+            if let OElem::Str(s, tags) = e {
+                if s.contains('x') {
+                    for t in tags {
+                        if let Ann::Colour(r, g, b) = t {
+                            got.push(((*r as u32) << 16) | ((*g as u32) << 8) | *b as u32);
+                        }
+                    }
+                }
+            }
+        }
+    }
+    st.nontrivial(case);
+    if got.last() != Some(&expected) {
+        return Err(format!(
+            "cascade: `{}` repeated {} times (specificity {:?}) against `{}` (specificity {:?}), repeated rule {}: expected {} but the text carries {:?}",
+            if case.ids { "#i" } else { ".c" }, case.k, spec_rep, SELS[case.other as usize], spec_other, if case.first { "first" } else { "last" }, colour_hex(expected), got.iter().map(|c| colour_hex(*c)).collect::<Vec<_>>()
+        ));
+    }
+    Ok(())
+}
+
 fn tuple_items(ctx: &Ctx) -> Vec<TupleCase> {
     let kinds = all_kinds();
     let mut v = vec![];
@@ -214,6 +293,7 @@ pub fn property() -> Property {
         hang_is_violation: false,
         subs: vec![
             EnumSub::new("tuples", true, tuple_items, check_tuple).boxed(),
+            EnumSub::new("big_specificity", true, bigspec_items, check_bigspec).boxed(),
             PropSub::new("random", 30_000, 300_000, random_case, check_random).with_validity(|c| c.inner.doc.valid() && styling_valid(&c.inner.styling)).boxed(),
         ],
     }
